@@ -198,6 +198,13 @@ struct Sender {
     prot: crate::model::MHeader,
     payload: Option<Vec<u8>>,
     st_fail_fired: u64,
+    /// token of the most recent successful create call
+    last_token: Option<Vec<u8>>,
+    /// what the encoded message must carry: signature / tag / ciphertext slot, signers
+    /// (protected bytes, signature), top-level recipients (protected bytes, ciphertext)
+    slot: Option<Vec<u8>>,
+    signers: Vec<(Vec<u8>, Vec<u8>)>,
+    rcpts: Vec<(Vec<u8>, Option<Vec<u8>>)>,
 }
 
 enum SendErr {
@@ -219,7 +226,7 @@ fn v5(msg: String) -> SendErr {
 
 impl Sender {
     fn new(failed: Vec<usize>) -> Sender {
-        Sender { stub: RefCell::new(Stub::default()), obs: vec![], tokens: vec![], failed, prot: crate::model::MHeader::default(), payload: None, st_fail_fired: 0 }
+        Sender { stub: RefCell::new(Stub::default()), obs: vec![], tokens: vec![], failed, prot: crate::model::MHeader::default(), payload: None, st_fail_fired: 0, last_token: None, slot: None, signers: vec![], rcpts: vec![] }
     }
 
     fn enc(&self, h: &crate::model::MHeader) -> Result<Vec<u8>, SendErr> {
@@ -277,7 +284,8 @@ impl Sender {
                         format!("op {} `{}`: creator failed but the fallible helper returned Ok (a message was built)", idx, step.summary()),
                     )));
                 }
-                self.tokens.push((token, self.obs.len() - 1));
+                self.tokens.push((token.clone(), self.obs.len() - 1));
+                self.last_token = Some(token);
                 Ok(b)
             }
             Err(e) => {
@@ -407,7 +415,10 @@ fn send(kind: &str, ops: &[&Step], s: &mut Sender) -> Result<Built, SendErr> {
                         s.payload = Some(p.clone());
                         b = b.payload(p);
                     }
-                    "signature" => b = b.signature(step.bytes(0)?.to_vec()),
+                    "signature" => {
+                        s.slot = Some(step.bytes(0)?.to_vec());
+                        b = b.signature(step.bytes(0)?.to_vec());
+                    }
                     "create" | "create_detached" => {
                         let aad = step.bytes(0)?.to_vec();
                         let fallible = step.int(1)? == 1;
@@ -431,6 +442,7 @@ fn send(kind: &str, ops: &[&Step], s: &mut Sender) -> Result<Built, SendErr> {
                             (true, false) => Ok(bb.create_detached_signature(dp.as_ref().unwrap(), &aad, |d| signer(stub, tok, false)(d).unwrap())),
                             (true, true) => bb.try_create_detached_signature(dp.as_ref().unwrap(), &aad, signer(stub, tok, f)),
                         })?;
+                        s.slot = s.last_token.clone();
                     }
                     x => return Err(HarnessError(format!("CoseSign1: unknown op {}", x)).into()),
                 }
@@ -449,10 +461,23 @@ fn send(kind: &str, ops: &[&Step], s: &mut Sender) -> Result<Built, SendErr> {
                         s.payload = Some(p.clone());
                         b = b.payload(p);
                     }
-                    "add_signature" => b = b.add_signature(sig_from_args(step, 0)?.to_coset()),
+                    "add_signature" => {
+                        let sig = sig_from_args(step, 0)?;
+                        let id = match &sig.protected.original {
+                            Some(x) => x.clone(),
+                            None => s.enc(&sig.protected.header)?,
+                        };
+                        s.signers.push((id, sig.signature.clone()));
+                        b = b.add_signature(sig.to_coset());
+                    }
                     "add_created" | "add_detached" => {
                         let sig = sig_from_args(step, 0)?;
-                        let hp = header_from_arg(step, 0)?;
+                        // the signer's protected bytes: retained wire bytes of a decoded template,
+                        // else what coset emits for the header
+                        let sign_id = match &sig.protected.original {
+                            Some(b) => b.clone(),
+                            None => s.enc(&sig.protected.header)?,
+                        };
                         let aad = step.bytes(3)?.to_vec();
                         let fallible = step.int(4)? == 1;
                         let fail = step.int(5)? == 1;
@@ -464,11 +489,12 @@ fn send(kind: &str, ops: &[&Step], s: &mut Sender) -> Result<Built, SendErr> {
                         let tuple = Tuple {
                             ctx: "Signature".into(),
                             body: s.enc(&s.prot.clone())?,
-                            sign: Some(s.enc(&hp)?),
+                            sign: Some(sign_id.clone()),
                             aad: aad.clone(),
                             payload: if detached { dp.clone() } else { norm(&s.payload) },
                         };
                         let cs = sig.to_coset();
+                        let sign_id2 = sign_id;
                         let bb = b;
                         b = s.create(idx, step, tuple, fallible, fail, None, move |stub, tok, f| match (detached, fallible) {
                             (false, false) => Ok(bb.add_created_signature(cs, &aad, |d| signer(stub, tok, false)(d).unwrap())),
@@ -476,6 +502,7 @@ fn send(kind: &str, ops: &[&Step], s: &mut Sender) -> Result<Built, SendErr> {
                             (true, false) => Ok(bb.add_detached_signature(cs, dp.as_ref().unwrap(), &aad, |d| signer(stub, tok, false)(d).unwrap())),
                             (true, true) => bb.try_add_detached_signature(cs, dp.as_ref().unwrap(), &aad, signer(stub, tok, f)),
                         })?;
+                        s.signers.push((sign_id2, s.last_token.clone().unwrap_or_default()));
                     }
                     x => return Err(HarnessError(format!("CoseSign: unknown op {}", x)).into()),
                 }
@@ -494,9 +521,14 @@ fn send(kind: &str, ops: &[&Step], s: &mut Sender) -> Result<Built, SendErr> {
                         s.payload = Some(p.clone());
                         b = b.payload(p);
                     }
-                    "tag" => b = b.tag(step.bytes(0)?.to_vec()),
+                    "tag" => {
+                        s.slot = Some(step.bytes(0)?.to_vec());
+                        b = b.tag(step.bytes(0)?.to_vec());
+                    }
                     "add_recipient" => {
                         let r = build_rcpt(s, idx, step, 0)?;
+                        let rid = s.enc(&header_from_arg(step, 0)?)?;
+                        s.rcpts.push((rid, s.last_token.clone()));
                         b = b.add_recipient(r);
                     }
                     "create" => {
@@ -515,6 +547,7 @@ fn send(kind: &str, ops: &[&Step], s: &mut Sender) -> Result<Built, SendErr> {
                                 Ok(bb.create_tag(&aad, |d| signer(stub, tok, false)(d).unwrap()))
                             }
                         })?;
+                        s.slot = s.last_token.clone();
                     }
                     x => return Err(HarnessError(format!("CoseMac: unknown op {}", x)).into()),
                 }
@@ -533,7 +566,10 @@ fn send(kind: &str, ops: &[&Step], s: &mut Sender) -> Result<Built, SendErr> {
                         s.payload = Some(p.clone());
                         b = b.payload(p);
                     }
-                    "tag" => b = b.tag(step.bytes(0)?.to_vec()),
+                    "tag" => {
+                        s.slot = Some(step.bytes(0)?.to_vec());
+                        b = b.tag(step.bytes(0)?.to_vec());
+                    }
                     "create" => {
                         let aad = step.bytes(0)?.to_vec();
                         let fallible = step.int(1)? == 1;
@@ -550,6 +586,7 @@ fn send(kind: &str, ops: &[&Step], s: &mut Sender) -> Result<Built, SendErr> {
                                 Ok(bb.create_tag(&aad, |d| signer(stub, tok, false)(d).unwrap()))
                             }
                         })?;
+                        s.slot = s.last_token.clone();
                     }
                     x => return Err(HarnessError(format!("CoseMac0: unknown op {}", x)).into()),
                 }
@@ -563,9 +600,14 @@ fn send(kind: &str, ops: &[&Step], s: &mut Sender) -> Result<Built, SendErr> {
                     continue;
                 }
                 match step.name.as_str() {
-                    "ciphertext" => b = b.ciphertext(step.bytes(0)?.to_vec()),
+                    "ciphertext" => {
+                        s.slot = Some(step.bytes(0)?.to_vec());
+                        b = b.ciphertext(step.bytes(0)?.to_vec());
+                    }
                     "add_recipient" => {
                         let r = build_rcpt(s, idx, step, 0)?;
+                        let rid = s.enc(&header_from_arg(step, 0)?)?;
+                        s.rcpts.push((rid, s.last_token.clone()));
                         b = b.add_recipient(r);
                     }
                     "create" => {
@@ -583,6 +625,7 @@ fn send(kind: &str, ops: &[&Step], s: &mut Sender) -> Result<Built, SendErr> {
                                 Ok(bb.create_ciphertext(&pt2, &aad, |p, a| cipher(stub, tok, false)(p, a).unwrap()))
                             }
                         })?;
+                        s.slot = s.last_token.clone();
                     }
                     x => return Err(HarnessError(format!("CoseEncrypt: unknown op {}", x)).into()),
                 }
@@ -596,7 +639,10 @@ fn send(kind: &str, ops: &[&Step], s: &mut Sender) -> Result<Built, SendErr> {
                     continue;
                 }
                 match step.name.as_str() {
-                    "ciphertext" => b = b.ciphertext(step.bytes(0)?.to_vec()),
+                    "ciphertext" => {
+                        s.slot = Some(step.bytes(0)?.to_vec());
+                        b = b.ciphertext(step.bytes(0)?.to_vec());
+                    }
                     "create" => {
                         let aad = step.bytes(0)?.to_vec();
                         let fallible = step.int(1)? == 1;
@@ -612,6 +658,7 @@ fn send(kind: &str, ops: &[&Step], s: &mut Sender) -> Result<Built, SendErr> {
                                 Ok(bb.create_ciphertext(&pt2, &aad, |p, a| cipher(stub, tok, false)(p, a).unwrap()))
                             }
                         })?;
+                        s.slot = s.last_token.clone();
                     }
                     x => return Err(HarnessError(format!("CoseEncrypt0: unknown op {}", x)).into()),
                 }
@@ -625,9 +672,14 @@ fn send(kind: &str, ops: &[&Step], s: &mut Sender) -> Result<Built, SendErr> {
                     continue;
                 }
                 match step.name.as_str() {
-                    "ciphertext" => b = b.ciphertext(step.bytes(0)?.to_vec()),
+                    "ciphertext" => {
+                        s.slot = Some(step.bytes(0)?.to_vec());
+                        b = b.ciphertext(step.bytes(0)?.to_vec());
+                    }
                     "add_recipient" => {
                         let r = build_rcpt(s, idx, step, 0)?;
+                        let rid = s.enc(&header_from_arg(step, 0)?)?;
+                        s.rcpts.push((rid, s.last_token.clone()));
                         b = b.add_recipient(r);
                     }
                     "create" => {
@@ -647,6 +699,7 @@ fn send(kind: &str, ops: &[&Step], s: &mut Sender) -> Result<Built, SendErr> {
                                 Ok(bb.create_ciphertext(ctx, &pt2, &aad, |p, a| cipher(stub, tok, false)(p, a).unwrap()))
                             }
                         })?;
+                        s.slot = s.last_token.clone();
                     }
                     x => return Err(HarnessError(format!("CoseRecipient: unknown op {}", x)).into()),
                 }
@@ -1053,7 +1106,7 @@ impl Engine for C06 {
                 "histories respect the helpers' documented preconditions (payload before create_tag, no payload before detached create)",
             ],
             real_components: &["coset builders, create/try_create helpers, encoders, decoders, verify/decrypt helpers (real code)"],
-            stub_components: &["signer / MAC / cipher / verifier closures (recording stub, fails on command)", "wire (region-targeted bit flips)", "application deciding what to send and verify", "reference log + tuple oracle"],
+            stub_components: &["signer / MAC / cipher / verifier closures (recording stub, fails on command)", "wire (region-targeted bit flips)", "application deciding what to send and verify", "reference log + tuple oracle", "wire model (what the encoded message must carry)"],
             fault_kinds: &["creator-fails (try_ helpers, followed by retry from a fresh builder)", "verifier-result(Err)", "aad-mismatch", "payload-mismatch (detached)", "flip(protected|unprotected|payload|slot|nested region)", "post-create mutation (history)"],
             design_ref: "DESIGN.md section 5.2",
         }
@@ -1144,9 +1197,12 @@ impl Engine for C06 {
         for o in &ops {
             match o.name.as_str() {
                 "protected" | "add_signature" | "add_created" | "add_detached" | "add_recipient" => {
-                    let h = header_from_arg(o, 0)?;
-                    if !used.contains(&h) {
-                        used.push(h);
+                    // (templates that carry retained wire bytes are identified by those bytes)
+                    if o.name == "protected" || protected_from_arg(o, 0)?.original.is_none() {
+                        let h = header_from_arg(o, 0)?;
+                        if !used.contains(&h) {
+                            used.push(h);
+                        }
                     }
                 }
                 _ => {}
@@ -1172,12 +1228,16 @@ impl Engine for C06 {
 
         // sender, with retry after an injected creator failure
         let mut failed: Vec<usize> = Vec::new();
-        let (built, mut obs, tokens) = loop {
+        let (built, mut obs, tokens, wire_model) = loop {
             let mut s = Sender::new(failed.clone());
             match send(&kind, &ops, &mut s) {
                 Ok(b) => {
                     st.add("fault:creator-fails", failed.len() as u64);
-                    break (b, s.obs, s.tokens);
+                    let body_id = match enc_protected(&s.prot) {
+                        Ok(x) => x,
+                        Err(e) => return Ok(Some(Violation::new("C06.I5", e))),
+                    };
+                    break (b, s.obs, s.tokens, (body_id, s.payload.clone(), s.slot.clone(), s.signers.clone(), s.rcpts.clone()));
                 }
                 Err(SendErr::Retry(idx)) => {
                     // I2 also holds for the bytes handed to the failing creator: keep checking them
@@ -1222,6 +1282,58 @@ impl Engine for C06 {
             Err(p) => return Ok(Some(Violation::new("C06.I5", format!("encoding the built message panicked: {}", p)))),
         };
         st.max("max:wire_len", wire.len() as u64);
+        // I6: the encoded message carries exactly what the builder was given - protected bytes,
+        // payload, signature / tag / ciphertext, every signer's and recipient's protected bytes -
+        // as read from the wire by the harness's own CBOR reader
+        {
+            let (body_id, payload, slot, signers, rcpts) = &wire_model;
+            let w = match wire_view(&kind, &wire, tagged) {
+                Some(w) => w,
+                None => return Ok(Some(Violation::new("C06.I6", format!("the encoded message is not the structure the builder describes: {}", hex_short(&wire))))),
+            };
+            let slot_default = match kind.as_str() {
+                "CoseSign1" | "CoseMac" | "CoseMac0" => Some(Vec::new()),
+                _ => None,
+            };
+            let want_slot = if kind == "CoseSign" { None } else { slot.clone().or(slot_default) };
+            let mut bad: Option<String> = None;
+            if w.prot != *body_id {
+                bad = Some(format!("protected bytes on the wire {} but the builder's protected header encodes as {}", hex_short(&w.prot), hex_short(body_id)));
+            } else if matches!(kind.as_str(), "CoseSign1" | "CoseSign" | "CoseMac" | "CoseMac0") && w.payload != *payload {
+                bad = Some(format!("payload on the wire {:?} but the builder was given {:?}", w.payload.as_ref().map(|p| hex_short(p)), payload.as_ref().map(|p| hex_short(p))));
+            } else if w.slot != want_slot {
+                bad = Some(format!("signature/tag/ciphertext on the wire {:?} but the builder holds {:?}", w.slot.as_ref().map(|p| hex_short(p)), want_slot.as_ref().map(|p| hex_short(p))));
+            } else if kind == "CoseSign" {
+                if w.nested.len() != signers.len() {
+                    bad = Some(format!("{} signatures on the wire, {} were added", w.nested.len(), signers.len()));
+                } else {
+                    for (i, (sw, (id, sg))) in w.nested.iter().zip(signers.iter()).enumerate() {
+                        if sw.prot != *id {
+                            bad = Some(format!("signer {}: protected bytes on the wire {} but the template's are {}", i, hex_short(&sw.prot), hex_short(id)));
+                            break;
+                        }
+                        if sw.slot.as_deref() != Some(sg.as_slice()) {
+                            bad = Some(format!("signer {}: signature on the wire {:?} but {} was stored", i, sw.slot.as_ref().map(|p| hex_short(p)), hex_short(sg)));
+                            break;
+                        }
+                    }
+                }
+            } else if matches!(kind.as_str(), "CoseMac" | "CoseEncrypt" | "CoseRecipient") {
+                if w.nested.len() != rcpts.len() {
+                    bad = Some(format!("{} recipients on the wire, {} were added", w.nested.len(), rcpts.len()));
+                } else {
+                    for (i, (rw, (id, ct))) in w.nested.iter().zip(rcpts.iter()).enumerate() {
+                        if rw.prot != *id || rw.slot != *ct {
+                            bad = Some(format!("recipient {}: wire carries protected {} / ciphertext {:?}, builder was given {} / {:?}", i, hex_short(&rw.prot), rw.slot.as_ref().map(|p| hex_short(p)), hex_short(id), ct.as_ref().map(|p| hex_short(p))));
+                            break;
+                        }
+                    }
+                }
+            }
+            if let Some(b) = bad {
+                return Ok(Some(Violation::new("C06.I6", b)));
+            }
+        }
 
         // wire faults
         let mut delivered = wire.clone();
